@@ -400,7 +400,7 @@ func genCase(t *rapid.T) *Case {
 }
 
 func TestPropMachine(t *testing.T) {
-	n := hx.N(600, 20000)
+	n := hx.N(600, 12000)
 	if v, err := strconv.Atoi(os.Getenv("C14_N")); err == nil && v > 0 {
 		n = v // development knob: number of machines per shard
 	}
@@ -449,7 +449,7 @@ func TestEnumBoundary(t *testing.T) {
 				t.Fatalf("%v", err)
 			}
 			fails++
-			if fails <= 8 {
+			if fails <= 2 {
 				hx.Violation("enum", c, err.Error())
 				t.Errorf("%s: %v", c.Desc, err)
 			}
@@ -549,8 +549,8 @@ func TestEnumBoundary(t *testing.T) {
 			}
 		}
 	}
-	if fails > 8 {
-		t.Errorf("... and %d more failing enumerated cases", fails-8)
+	if fails > 2 {
+		t.Errorf("... and %d more failing enumerated cases", fails-2)
 	}
 	hx.Exhaustive("msize 128 and 129 (thorough: and 256) x both dialects: file lengths {0,1,U-1,U,U+1,2U-1,2U,2U+1,3U+1} x offsets {0,1,U-1,U,U+1,2U,L-1,L,L+1,L-U,L+U} x counts {0,1,U-1,U,U+1,2U+1,3U+2,rem-1,rem,rem+1} for Clnt.Read, File.ReadAt, File.Readn; sequential File.Read to EOF with 10 buffer sizes; Clnt.Write, File.WriteAt, File.Written on fresh files of lengths {0,1,U-1,U,U+1,2U+1} x 9 offsets x 6 counts; all 36 pairs of consecutive File.Write sizes")
 }
